@@ -16,7 +16,7 @@ structure Inst where
   stored : Nat := 0
 deriving Inhabited
 
-def region (i : Nat) : Region := ⟨16, 0x6a0000000000 + i * 0x400000000⟩
+def region (i : Nat) : Region := ⟨16, 0x6a0000000000 + i * 0x400030000⟩
 
 abbrev W := World Inst
 
